@@ -251,6 +251,8 @@ def run(chk, prog):
                 re_ = G.Extractor(rfn, "r")
                 ri = re_.run()
                 npairs += 1
+                wfn["_via"] = we.members_via_locals
+                rfn["_via"] = re_.members_via_locals
                 n1 += compare(chk, "R1", cls, wfn, rfn, wi, ri)
                 recs = [r for r in lib.records.get(wfn.get("clsq"), []) if r["full"] == cls]
                 if recs:
@@ -276,8 +278,8 @@ def run(chk, prog):
         if not recs:
             continue
         rec = recs[0]
-        written = members_written(wi)
-        read = members_written(ri)
+        written = members_written(wi) | set(wfn.get("_via", ()))
+        read = members_written(ri) | set(rfn.get("_via", ()))
         base_cls = clsq
         # members assigned (derived) in the restart constructor
         derived = {}
@@ -324,6 +326,15 @@ def run(chk, prog):
                          function=wfn["full"], construct=m)
                 continue
             if m in derived and rfn.get("ctor"):
+                # a member that the class changes after construction is run-time state: re-deriving it from
+                # constants / other members restores the construction-time value, not the dumped one
+                mut = mutators(lib, cls, m)
+                if mut:
+                    chk.fail("R3", inst + " is mutable state and must be dumped", loc,
+                             "member is modified by %s after construction but the restart constructor re-derives it "
+                             "instead of reading the dumped value: a restarted run continues from the construction-time "
+                             "value" % ", ".join(sorted(mut)[:4]), function=rfn["full"], construct=m)
+                    continue
                 ok, detail = derived_same_tree(lib, rec, clsq, cls, m, f, rfn, derived[m])
                 chk.require(ok, "R3", inst + " is re-derived by the primary constructor's operation tree", loc,
                             detail, function=rfn["full"], construct=m)
@@ -395,6 +406,29 @@ def _vec_components(e):
     if e is not None and e.get("k") == "Ctor" and len(e["a"]) == 3:
         return list(e["a"])
     return None
+
+
+def mutators(lib, cls, m):
+    """Non-constructor, non-destructor methods of cls that assign member m (or call a mutating method on it)."""
+    out = set()
+    for d in lib.decls:
+        if d["kind"] != "function" or d.get("cls") != cls or d.get("ctor") or d.get("dtor"):
+            continue
+        if d["name"] in ("write_restart_file", "write_restart_info", "read_restart_info"):
+            continue
+        for x in C.walk_stmt(d["body"]):
+            k = x.get("k")
+            tgt = None
+            if k == "Bin" and x["op"] in ("=", "+=", "-=", "*=", "/=", "%=", ">>=", "<<=", "|=", "&="):
+                tgt = x["a"]
+            elif k == "Un" and x["op"] in ("pre++", "post++", "pre--", "post--"):
+                tgt = x["x"]
+            elif k == "Call" and x.get("op") in ("=", "+=", "-=", "*=", "/=") and x.get("obj") is not None:
+                tgt = x["obj"]
+            if tgt is not None and G.key_root_member(G.lv_key(tgt)) == m:
+                # writes through a pointer member to the pointee are not writes of the member
+                out.add(d["name"])
+    return out
 
 
 def derived_same_tree(lib, rec, clsq, cls, m, field, rfn, rexprs):
